@@ -28,6 +28,7 @@ from basilisp.lang import keyword as kw
 from basilisp.lang import list as llist
 from basilisp.lang import map as lmap
 from basilisp.lang import obj as lobj
+from basilisp.lang import queue as lqueue
 from basilisp.lang import seq as lseq
 from basilisp.lang import set as lset
 from basilisp.lang import symbol as sym
@@ -1478,6 +1479,13 @@ def _nth_sequence(coll: Sequence, i: int, notfound=IIndexed.NTH_SENTINEL):
 @nth.register(IIndexed)
 def _nth_iindexed(coll: IIndexed, i: int, notfound=IIndexed.NTH_SENTINEL):
     return coll.nth(i, notfound=notfound)
+
+
+@nth.register(lqueue.PersistentQueue)
+def _nth_queue(
+    coll: lqueue.PersistentQueue, i: int, notfound=IIndexed.NTH_SENTINEL
+):
+    return _nth_iseq(to_seq(coll), i, notfound)  # type: ignore[arg-type]
 
 
 @nth.register(ISeq)
